@@ -400,6 +400,12 @@ class SymBool:
 
     __hash__ = None
 
+    def __deepcopy__(self, memo):
+        return self
+
+    def __copy__(self):
+        return self
+
     def __repr__(self):
         return "SymBool(%s)" % self.e
 
@@ -473,6 +479,9 @@ class SymInt:
 
     def __bool__(self):
         return bool(SymBool.mk(self.z != 0))
+
+    def __deepcopy__(self, memo):
+        return self
 
     def concretize(self):
         while True:
@@ -608,6 +617,12 @@ class Q:
 
     def __float__(self):
         return self.const_value()
+
+    def __deepcopy__(self, memo):
+        return self          # immutable value
+
+    def __copy__(self):
+        return self
 
     def __bool__(self):
         """truthiness of a float: x != 0 (NaN is truthy); forks when undecided"""
